@@ -21,7 +21,7 @@ const rule = "node-family scenarios whose wrapped components are consumed throug
 type fataler interface{ Fatalf(string, ...any) }
 
 func decide(t fataler, s *graph.Scenario, plans map[int]graph.WrapPlan, tag string) {
-	withObs := strings.HasSuffix(tag, "+obs")
+	withObs := strings.Contains(tag, "+obs")
 	in := s.Instantiate()
 	wrap := &graph.WrapPP{Plan: map[string]graph.WrapPlan{}, IDOf: func(c any) int {
 		if id, ok := in.IDs[reflect.ValueOf(c).Pointer()]; ok {
@@ -36,7 +36,37 @@ func decide(t fataler, s *graph.Scenario, plans map[int]graph.WrapPlan, tag stri
 		pl = append(pl, fmt.Sprintf("%d:%v", id, p))
 	}
 	sort.Strings(pl)
-	in.Extra = append(in.Extra, wrap)
+	// when no plan wraps at early-reference time, the substituting post-processor may as well be a plain
+	// ComponentPostProcessor (no instantiation-aware callbacks anywhere among the user components)
+	plain := !withObs && strings.Contains(tag, "plainpp")
+	for _, p := range plans {
+		if p.Early != 0 || p.Inst != 0 || p.After == graph.WrapSame || p.After == graph.WrapUnlessEarly {
+			plain = false
+		}
+	}
+	if plain {
+		in.Extra = append(in.Extra, &graph.PlainWrapPP{Plan: wrap.Plan})
+	} else {
+		in.Extra = append(in.Extra, wrap)
+	}
+	// hand-wired components: some single-valued points already hold their (only) target before the start.
+	// (Not combined with substitution before instantiation: such a component is never populated by the
+	// container, so what its raw object holds is the caller's own wiring, not a version handed out.)
+	if strings.Contains(tag, "prewired") {
+		reg := map[string]any{}
+		for _, c := range in.Comps {
+			n, _ := model.NameOf(c)
+			reg[n] = c
+		}
+		pg := model.Build(model.Population(reg, in.IDs))
+		for _, c := range pg.Pop {
+			for _, p := range pg.Points[c] {
+				if !p.Multi && len(p.Cands) == 1 && p.Cands[0].Typ.AssignableTo(p.Field.Type) {
+					p.FieldValue().Set(reflect.ValueOf(p.Cands[0].Obj))
+				}
+			}
+		}
+	}
 	if withObs {
 		in.Extra = append(in.Extra, &graph.ObsPP{Tag: "c03", Log: in.Log}, &graph.OrderedObsPP{ObsPP: graph.ObsPP{Tag: "c03o", Log: in.Log, OrderV: 1}})
 	}
@@ -70,23 +100,8 @@ func decide(t fataler, s *graph.Scenario, plans map[int]graph.WrapPlan, tag stri
 		return
 	}
 	labels = append(labels, "start-succeeded")
-	// versions seen per target
-	type sight struct {
-		where string
-		obj   any
-	}
-	seen := map[string][]sight{}
-	for _, c := range g.Pop {
-		for _, p := range g.Points[c] {
-			for _, sx := range graph.Observe(g, p) {
-				tn := sx.TargetName(g)
-				if tn == "" {
-					t.Fatalf("C03: %v holds a foreign object %T\n%s", p, sx.Raw, desc)
-				}
-				seen[tn] = append(seen[tn], sight{c.Name + "." + p.Field.Name, sx.Raw})
-			}
-		}
-	}
+	// by-name lookups first (they create the lazy components nobody needed so far) ...
+	published := map[string]any{}
 	for _, c := range g.Pop {
 		if c.ID < 0 {
 			continue
@@ -99,13 +114,36 @@ func decide(t fataler, s *graph.Scenario, plans map[int]graph.WrapPlan, tag stri
 			kit.Rec.Exclude("retry-after-refused-lazy-creation")
 			break
 		}
-		for _, sx := range seen[c.Name] {
-			if sx.obj != got {
-				t.Fatalf("C03: start-up succeeded with mixed versions of %q: %s holds %v, the container publishes %v\n%s\nreg %v ordmode %d seed %x", c.Name, sx.where, sx.obj, got, desc, s.RegPerm, s.OrdMode, s.OrdSeed)
-			}
-		}
+		published[c.Name] = got
 		if _, isW := got.(*zoo.W); isW {
 			labels = append(labels, "final-version-is-wrapper")
+		}
+	}
+	// ... then what every holder that the container actually created and populated holds
+	created := map[string]bool{}
+	for _, e := range in.Tracer.Events {
+		if e.Op == "create-exit" && !e.Err && e.Flag {
+			created[e.Name] = true
+		}
+	}
+	for _, c := range g.Pop {
+		if !created[c.Name] {
+			continue // never populated by the container: whatever its fields hold is the caller's own wiring
+		}
+		if pl, ok := wrap.Plan[c.Name]; ok && pl.Inst != 0 {
+			continue // substituted before instantiation: the raw object was never populated either
+		}
+		for _, p := range g.Points[c] {
+			for _, sx := range graph.Observe(g, p) {
+				tn := sx.TargetName(g)
+				if tn == "" {
+					t.Fatalf("C03: %v holds a foreign object %T\n%s", p, sx.Raw, desc)
+				}
+				got, ok := published[tn]
+				if ok && sx.Raw != got {
+					t.Fatalf("C03: start-up succeeded with mixed versions of %q: %s.%s holds %v, the container publishes %v\n%s\nreg %v ordmode %d seed %x\ntrace:\n%s", tn, c.Name, p.Field.Name, sx.Raw, got, desc, s.RegPerm, s.OrdMode, s.OrdSeed, in.Tracer.Dump(70))
+				}
+			}
 		}
 	}
 	if len(wrap.EarlyW) > 0 {
@@ -126,7 +164,7 @@ func genPlan(t *rapid.T) graph.WrapPlan {
 func TestRandom(t *testing.T) {
 	kit.Rec.Rule(rule)
 	rapid.Check(t, func(t *rapid.T) {
-		s := graph.Gen(t, graph.GenOpts{MinNodes: 2, MaxNodes: 6, Variants: "NLLPPE", Aliases: true, Lookups: true, Twins: true})
+		s := graph.Gen(t, graph.GenOpts{MinNodes: 2, MaxNodes: 6, Variants: "NLLPPEH", Aliases: true, Lookups: true, Twins: true})
 		plans := map[int]graph.WrapPlan{}
 		for i, n := range s.Nodes {
 			if n.Variant != 'N' && rapid.IntRange(0, 2).Draw(t, "wrapped") > 0 {
@@ -137,6 +175,12 @@ func TestRandom(t *testing.T) {
 		if rapid.Bool().Draw(t, "withobs") {
 			tag += "+obs"
 		}
+		if rapid.IntRange(0, 2).Draw(t, "plainpp") == 0 {
+			tag += "+plainpp"
+		}
+		if rapid.IntRange(0, 3).Draw(t, "prewired") == 0 {
+			tag += "+prewired"
+		}
 		decide(t, s, plans, tag)
 	})
 }
@@ -144,14 +188,21 @@ func TestRandom(t *testing.T) {
 func TestRandomPure(t *testing.T) {
 	kit.Rec.Rule(rule)
 	rapid.Check(t, func(t *rapid.T) {
-		s := graph.Gen(t, graph.GenOpts{MinNodes: 2, MaxNodes: 5, Variants: "QQS", Aliases: true, Lookups: true, Twins: true})
+		s := graph.Gen(t, graph.GenOpts{MinNodes: 2, MaxNodes: 5, Variants: "QQSUH", Aliases: true, Lookups: true, Twins: true})
 		plans := map[int]graph.WrapPlan{}
 		for i := range s.Nodes {
 			if rapid.IntRange(0, 2).Draw(t, "wrapped") > 0 {
 				plans[i] = genPlan(t)
 			}
 		}
-		decide(t, s, plans, "pure")
+		tag := "pure"
+		if rapid.IntRange(0, 2).Draw(t, "plainpp") == 0 {
+			tag += "+plainpp"
+		}
+		if rapid.IntRange(0, 3).Draw(t, "prewired") == 0 {
+			tag += "+prewired"
+		}
+		decide(t, s, plans, tag)
 	})
 }
 
